@@ -76,4 +76,23 @@ example : ((frame demoSetup demoState' { keys := [0] } { delta := 1 / 64, speed 
       (fun o => o.deliveries.map (fun d => (d.entity, d.action, d.kind)))) =
     some [(0, 0, EvKind.started), (0, 0, EvKind.fired)] := by decide
 
+/-- the state after the frame in which the contested key went down (the top context's action is Fired) -/
+def demoPressed : AppState :=
+  ((frame demoSetup demoState' { keys := [0] } { delta := 1 / 64, speed := 1 } [] [] 100).map (·.st)).getD {}
+
+/-- removing the top context while its action is Fired closes the episode with exactly one `Completed` (state None, zero
+    value) addressed to the leaving entity, and the lookup fails afterwards (C02 `remove_closes`, C07) -/
+def closing (p : AppState × List Delivery) : List (Nat × EvKind × AState × Value) :=
+  p.2.map (fun d => (d.entity, d.kind, d.state, d.value))
+
+example : ((applyOp demoSetup demoPressed (.remove 0 0)).map closing) =
+    some [(0, EvKind.completed, AState.none, Value.bool false)] := by decide
+
+example : ((applyOp demoSetup demoPressed (.remove 0 0)).map (fun p => (p.1.reg.get 0 0).isSome)) = some false := by decide
+
+/-- a rebuild closes it as well, and the rebuilt instance ignores the still-held key (C08) -/
+def kinds (p : AppState × List Delivery) : List (Nat × Nat × EvKind) := p.2.map (fun d => (d.entity, d.action, d.kind))
+
+example : ((applyOp demoSetup demoPressed .rebuild).map kinds) = some [(0, 0, EvKind.completed)] := by decide
+
 end BEI.Props.Witness
